@@ -588,6 +588,11 @@ func (node *CallGraphStage) resolve(siblings map[string]*ResolvedBinding,
 		errs = append(errs, err)
 	}
 
+	if len(node.stage.OutParams.List) == 0 && node.isAlwaysDisabled() {
+		// A stage without outputs has no references to propagate, but it
+		// still must never run.
+		node.Disable = alwaysDisable(node.Disable)
+	}
 	if len(node.stage.OutParams.List) > 0 {
 		if node.isAlwaysDisabled() {
 			// constantly-disabled stages always output null.  No need to
